@@ -728,6 +728,14 @@ impl Display for LinearModel {
         } else {
             "".to_string()
         };
+        //the satisfiability form has no expression: "solve" is the whole objective
+        if self.optimization_type == OptimizationType::Satisfy {
+            return write!(
+                f,
+                "{}\ns.t.\n{}{}",
+                self.optimization_type, constraints, domain
+            );
+        }
         write!(
             f,
             "{} {}\ns.t.\n{}{}",
